@@ -2,6 +2,8 @@ package rules
 
 import (
 	"fmt"
+	"go/types"
+	"os"
 	"strings"
 
 	"stgverif/internal/core"
@@ -130,6 +132,13 @@ func r4seqofDecX(c *core.Ctx, R string) bool {
 		}
 	}
 	c.Check(okRaw && nRaw > 0, R, "aper.parseSequenceOf(decode):semi-constrained-count", fn.Pos(), fmt.Sprintf("count = the length octet (%d evaluated branches)", nRaw), "on the semi-constrained branch the element count must be the octet read (the encoder writes the count itself there); count expression: %s", clip(gotRaw))
+	okCapD := true
+	for _, sc := range cases {
+		if sc.cv != nil && !sc.ubCapped {
+			okCapD = false
+		}
+	}
+	c.Check(okCapD, R, "aper.parseSequenceOf(decode):constrained-below-64K", fn.Pos(), "the count is read as a constrained whole number only when the upper bound is below 65536 (X.691 10.9.4.1)", "X.691 10.9.4.1: with an upper bound of 64K or more the count is a general length determinant; the decoder reads a constrained whole number on a path where the upper bound is not known to be below 65536")
 	c.Check(okLB && nLB > 0, R, "aper.parseSequenceOf(decode):constrained-count", fn.Pos(), fmt.Sprintf("count = value + lowerBound (%d evaluated branches)", nLB), "on the constrained branch the element count must be the decoded value plus the lower bound; count expression: %s", clip(gotLB))
 	return true
 }
@@ -171,4 +180,147 @@ func r14allocSeqX(c *core.Ctx, R string) bool {
 	c.Check(ok, R, "aper.parseSequenceOf:MakeSlice", fn.Pos(), fmt.Sprintf("count = constrained value (<= 65535) + lower bound, or one octet (%d evaluated branches)", len(cases)), "the number of list elements allocated must be a constrained count (at most 16 bits, from parseConstraintValue) plus the lower bound, or a single octet; it is %s — an input could claim an arbitrary count and exhaust memory", clip(got))
 	c.Check(okCap, R, "aper.parseSequenceOf:size-cap", fn.Pos(), "size bounds above 65535 are treated as unconstrained (one count octet)", "SEQUENCE OF size bounds must be capped at 65535 before they size an allocation")
 	return true
+}
+
+// ---- encoder side ---------------------------------------------------------------------------
+
+type seqofEncCase struct {
+	cv       *core.AEvent // appendConstraintValue(range, value)
+	aligned  bool
+	octet    core.AVal // the count octet appended on the semi-constrained branch
+	lbKnown  bool
+	ubCapped bool
+	ubKnown  bool // sizeUpperBound != nil on this path
+	ubFact   [2]int64
+}
+
+func seqofEncEval(c *core.Ctx) ([]seqofEncCase, string) {
+	fn := mustFunc(c, pAper, "perRawBitData.parseSequenceOf")
+	ex := core.NewExec()
+	ex.MaxStates = 2048
+	nVal := core.ArgNamed("n", types.Typ[types.Int])
+	ex.OnCall = func(ev *core.AEvent, m *core.AMem) (core.AVal, bool) {
+		n := ev.Callee
+		switch {
+		case n == "reflect.Value.Type":
+			ev.Stop = true
+			return core.AVal{}, true
+		case n == "reflect.Value.Len":
+			return nVal, true
+		case n == pAper+".perRawBitData.appendConstraintValue", n == pAper+".perRawBitData.putBitsValue":
+			return core.NilArg(), true
+		case n == pAper+".perRawBitData.appendAlignBits":
+			return core.AVal{K: core.ATuple}, true
+		case strings.HasSuffix(n, ".perTrace"), strings.HasSuffix(n, ".perRawBitLog"), n == "fmt.Sprintf", strings.HasPrefix(n, "reflect."), strings.Contains(n, "logrus"), strings.Contains(n, "logger"):
+			return core.OpaqueRet(ev), true
+		}
+		return core.AVal{}, false
+	}
+	args := core.DefaultArgs(fn)
+	args[0] = core.NonNilArg(args[0])
+	outs, err := ex.Run(fn, args, nil)
+	if err != nil {
+		return nil, err.Error()
+	}
+	if len(ex.Unsound) > 0 {
+		return nil, strings.Join(ex.Unsound, "; ")
+	}
+	var cases []seqofEncCase
+	for _, o := range outs {
+		if !o.Stopped {
+			continue
+		}
+		sc := seqofEncCase{}
+		for i := range o.Trace {
+			switch o.Trace[i].Callee {
+			case pAper + ".perRawBitData.appendConstraintValue":
+				sc.cv = &o.Trace[i]
+			case pAper + ".perRawBitData.appendAlignBits":
+				sc.aligned = true
+			}
+		}
+		if sc.aligned {
+			// the octet appended to pd.bytes
+			b := o.Mem.Load("p0.bytes", nil)
+			if b.K == core.ASlice {
+				if _, segs := o.Mem.Seq(b.Path); len(segs) > 0 && len(segs[len(segs)-1].Cells) >= 1 {
+					cells := segs[len(segs)-1].Cells
+					sc.octet = cells[len(cells)-1]
+				} else if b.Len > 0 {
+					sc.octet = o.Mem.Load(fmt.Sprintf("%s[%d]", b.Path, b.Lo+b.Len-1), types.Typ[types.Uint8])
+				}
+				if os.Getenv("VERIF_DEBUG") != "" {
+					from, segs := o.Mem.Seq(b.Path)
+					fmt.Printf("DEBUG seqofEnc bytes=%s from=%d segs=%d\n", nm(b), from, len(segs))
+				}
+			}
+		}
+		capped := func(name string) (bool, bool, [2]int64) {
+			isNil, known := o.Nils[name]
+			if !known || isNil {
+				return false, false, [2]int64{}
+			}
+			f, has := o.SFacts[name]
+			return has && f[1] < 65536, true, f
+		}
+		sc.lbKnown, _, _ = capped("p2.sizeLowerBound")
+		sc.ubCapped, sc.ubKnown, sc.ubFact = capped("p2.sizeUpperBound")
+		cases = append(cases, sc)
+	}
+	return cases, ""
+}
+
+// r4seqofEncX decides the encoder half of R4.seqof; false: the model is not usable.
+func r4seqofEncX(c *core.Ctx, R string) bool {
+	if !c.Once("seqof-enc") {
+		return true // decided earlier in this run (C04 runs it as R4.seqof before it includes C03)
+	}
+	cases, why := seqofEncEval(c)
+	if why != "" || len(cases) == 0 {
+		c.Note("R4.seqof: evaluator model of the encoder's parseSequenceOf not used (%s, %d cases)", why, len(cases))
+		return false
+	}
+	fn := mustFunc(c, pAper, "perRawBitData.parseSequenceOf")
+	okSub, okRaw, okCap := true, true, true
+	nSub, nRaw := 0, 0
+	gotSub, gotRaw, gotCap := "", "", ""
+	for _, sc := range cases {
+		switch {
+		case sc.cv != nil:
+			nSub++
+			val := nm(sc.cv.Args[2])
+			want := "n"
+			if sc.lbKnown {
+				want = "(n-p2.sizeLowerBound)"
+			}
+			if val != want {
+				okSub, gotSub = false, val
+			}
+			if !sc.ubCapped {
+				okCap = false
+				gotCap = fmt.Sprintf("the constrained form is used on a path where the upper bound is only known to lie in %v", sc.ubFact)
+				if !sc.ubKnown {
+					gotCap = "the constrained form is used on a path that has not established an upper bound"
+				}
+			}
+		case sc.aligned:
+			nRaw++
+			if !(sc.octet.K == core.AInt && nm(sc.octet) == "n<7:0>") {
+				okRaw, gotRaw = false, nm(sc.octet)
+			}
+		}
+	}
+	c.Check(okSub && okRaw && nSub > 0 && nRaw > 0, R, "aper.parseSequenceOf(encode):count", fn.Pos(), fmt.Sprintf("constrained: n-lowerBound (%d branches); semi-constrained: n (%d branches)", nSub, nRaw), "the encoder must write n-lowerBound in the constrained case and n in the semi-constrained case (constrained writes %s, semi-constrained writes %s)", clip(gotSub), clip(gotRaw))
+	c.Check(okCap, R, "aper.parseSequenceOf(encode):constrained-below-64K", fn.Pos(), "the count is a constrained whole number only when the upper bound is below 65536 (X.691 10.9.4.1)", "X.691 10.9.4.1: with an upper bound of 64K or more the count is a general length determinant, not a constrained whole number: %s — a list type with SIZE(..65536) is then encoded differently from every other PER codec", gotCap)
+	return true
+}
+
+// r3seqof: the encoder half on its own, for C03 (which form of count a SEQUENCE OF gets is part of
+// "the canonical encoding").
+func r3seqof(c *core.Ctx) {
+	const R = "R3.seqof"
+	c.Rule(R, "SEQUENCE OF count: n-lowerBound as a constrained whole number only below an upper bound of 64K, the count octet otherwise")
+	if !r4seqofEncX(c, R) {
+		c.SoftUndecided("%s: the encoder's parseSequenceOf could not be evaluated", R)
+	}
 }
